@@ -3,6 +3,7 @@ package checks
 import (
 	"bytes"
 	"fmt"
+	"os"
 	"strings"
 	"unicode/utf8"
 
@@ -64,19 +65,20 @@ func runC07(c *core.Ctx) *core.Outcome {
 	exs := examples.All()
 	deep := 0
 	var scripted [][]byte
-	if t.Chance(1, 80) {
+	force := os.Getenv("VISIM_C07_KIND") // debugging aid: force one of the scripted kinds (deep, langpaged, tworoles)
+	if t.Chance(1, 80) || force == "deep" {
 		// a session that keeps descending: resumed at every depth up to the limit the library enforces
 		a = deepApp(t)
 		deep = []int{127, 126, 100, 60}[t.Weighted(3, 2, 1, 1)]
 		cfg.OutputSize = 0
 		o.Probes["deep_run"]++
-	} else if t.Chance(1, 60) {
+	} else if t.Chance(1, 60) || force == "langpaged" {
 		// a paginated node seen before and after a language switch that makes its browse labels much longer
 		a = langPagedApp(t)
 		cfg.OutputSize = uint32(t.Range(48, 90))
 		scripted = [][]byte{[]byte("1"), []byte("11"), []byte("0"), []byte("2"), []byte("0"), []byte("1"), []byte("11"), []byte("11"), []byte("22")}
 		o.Probes["language_switch_over_paginated_node_run"]++
-	} else if t.Chance(1, 60) {
+	} else if t.Chance(1, 60) || force == "tworoles" {
 		// one symbol in two roles, visited in both orders
 		a = twoRolesApp(t)
 		scripted = [][]byte{[]byte("1"), []byte("0"), []byte("2"), []byte("0"), []byte("1"), []byte("11"), []byte("0"), []byte("2")}
